@@ -14,5 +14,5 @@ CHECK = {
     "trusted_base": LEAN_TB + ["/verif/extract/sites (go/types inventory, golang.org/x/tools v0.29.0)", "hand audit of the 90-odd sites (Proofs/Lemmas/AuditedSites.lean): class per site, theorem where one is owed"],
     "rule": "cases = generated package sets (3-12 packages, shared origins, size ties, deep/shared dirs, symlinks incl. dangling, hard links, xattrs, setuid/sticky, empty dirs, provides, DAG deps) x image configurations (env, annotations, accounts, path mutations, entrypoint/cmd, volumes, layering budget 1-5) x 1-3 architectures, SBOM on 70%; each case is built in 3-6 child processes differing in GOMAXPROCS (1/2/16), TZ, umask, cwd, TMPDIR name, environment noise, in-process repetition, layout vs bundle tarball, and (HTTP repositories) cache none/cold/warm/offline; non-trivial = at least one variant built; distinct = distinct cases",
     "assumptions": ["repository location, cache location, build date and --vcs directory are declared inputs (kept fixed across variants)", "pgzip output depends on block size, not thread count (library; exercised, not proved)"],
-    "text": "Proved: every site where iteration order can flow to an output is either sorted afterwards (sort_perm_invariant and instances), a commutative accumulation on distinct keys (insert_perm_lookup), or has its own theorem (lowest_perm_invariant, minFunc_unique_min, C14.dq_perm_invariant; C10/C09 theorems referenced); the inventory of such sites is regenerated from /repo with go/types and tied to the audited list, so a new or edited site breaks the proof build. Partial: scheduler, pgzip, runtime map order and third-party code are exercised by the repro suite only. Known finding F01b: multi-arch bundle tarballs list their blobs in go-containerregistry's map order.",
+    "text": "Proved: the provider choice and the whole resolution are independent of Go map iteration order (comparePackages_lex / _swo, minFunc_perm_invariant, nameMap_order_irrelevant, resolve_order_irrelevant — for every universe, once F08b is repaired; negation witness for the pinned comparator); every site where iteration order can flow to an output is either sorted afterwards (sort_perm_invariant and instances), a commutative accumulation on distinct keys (insert_perm_lookup), or has its own theorem (lowest_perm_invariant, minFunc_unique_min, C14.dq_perm_invariant; C10/C09 theorems referenced); the inventory of such sites is regenerated from /repo with go/types and tied to the audited list, so a new or edited site breaks the proof build. Partial: scheduler, pgzip, runtime map order and third-party code are exercised by the repro suite only. Known finding F01b: multi-arch bundle tarballs list their blobs in go-containerregistry's map order.",
 }
